@@ -154,7 +154,7 @@ fn vid(n: u16) -> VariableID {
     VariableID::from(n)
 }
 
-fn start_node(me: u16, peers: &[u16], base: &Utf8PathBuf, cfg: &Cfg, to_net: UnboundedSender<(u16, VariableID, PDU)>, slow_ms: u64, stalled_peer: bool) -> Node {
+fn start_node(me: u16, peers: &[u16], base: &Utf8PathBuf, cfg: &Cfg, to_net: UnboundedSender<(u16, VariableID, PDU)>, slow_ms: u64, stalled_peer: bool, seq0: VariableID) -> Node {
     let root = base.join(format!("e{}", me));
     let _ = std::fs::remove_dir_all(&root);
     std::fs::create_dir_all(&root).unwrap();
@@ -180,7 +180,7 @@ fn start_node(me: u16, peers: &[u16], base: &Utf8PathBuf, cfg: &Cfg, to_net: Unb
     fallback.inactivity_timeout = 600;
     fallback.ack_timeout = 600;
     fallback.nak_timeout = 600;
-    let mut daemon = Daemon::new(vid(me), vid(1), map, filestore, per_entity, fallback, prim_rx, ind_tx);
+    let mut daemon = Daemon::new(vid(me), seq0, map, filestore, per_entity, fallback, prim_rx, ind_tx);
     let handle = tokio::task::spawn(async move {
         let _ = daemon.manage_transactions().await;
     });
@@ -274,8 +274,18 @@ fn id_repr(id: &TransactionID) -> String {
 async fn run_scenario(out: &mut dyn Write, viol: &mut u64, base: &Utf8PathBuf, sc: Scenario, tag: &str, tally: &mut BTreeMap<&'static str, u64>) {
     let (to_net, mut net_rx): (UnboundedSender<(u16, VariableID, PDU)>, UnboundedReceiver<(u16, VariableID, PDU)>) = unbounded_channel();
     let mut nodes: BTreeMap<u16, Node> = BTreeMap::new();
-    nodes.insert(1, start_node(1, &[2], base, &sc.cfg, to_net.clone(), 0, sc.stalled_peer));
-    nodes.insert(2, start_node(2, &[1], base, &sc.cfg, to_net.clone(), sc.slow_ms, sc.stalled_peer));
+    // where the daemons' sequence counters start: mostly at 1, in a third of the scenarios each just below the top of a
+    // one-octet / two-octet counter, so that the Puts of the scenario take it across the boundary (ids must stay distinct)
+    let seq_of = |x: u64| -> VariableID {
+        match x % 3 {
+            0 => VariableID::from(1u16),
+            1 => VariableID::from(254u8),
+            _ => VariableID::from(65534u16),
+        }
+    };
+    let mix = sc.cfg.seg as u64 + sc.jobs.len() as u64 + sc.cfg.max as u64;
+    nodes.insert(1, start_node(1, &[2], base, &sc.cfg, to_net.clone(), 0, sc.stalled_peer, seq_of(mix)));
+    nodes.insert(2, start_node(2, &[1], base, &sc.cfg, to_net.clone(), sc.slow_ms, sc.stalled_peer, seq_of(mix + 1)));
     let inject: BTreeMap<u16, Sender<PDU>> = nodes.iter().map(|(k, n)| (*k, n.inject_tx.clone())).collect();
     // ---- the link
     let plan = sc.plan.clone();
@@ -736,7 +746,11 @@ async fn run_scenario(out: &mut dyn Write, viol: &mut u64, base: &Utf8PathBuf, s
     rec(out, "daemon new", "ok");
     for (e, _) in nodes.iter() {
         let mut set: Vec<String> = seen_recv_ids.get(e).map(|s| s.iter().cloned().collect()).unwrap_or_default();
-        set.sort();
+        // numeric order of (entity, sequence number), as the model prints them
+        set.sort_by_key(|x| {
+            let mut it = x.split('.').map(|n| n.parse::<u64>().unwrap_or(u64::MAX));
+            (it.next().unwrap_or(u64::MAX), it.next().unwrap_or(u64::MAX))
+        });
         let hdrs = delivered.lock().unwrap().get(e).cloned().unwrap_or_default();
         let peers = match (*e == 1, sc.stalled_peer) {
             (true, false) => "2",
